@@ -7,7 +7,9 @@ from beancount.core import data, position, inventory, convert, prices
 from harness.common import Result
 from harness import ledger
 
-FILTERS = [None, "account ~ 'Assets'", "currency = 'USD'", "account ~ 'Stock|Broker'", "year = 2021 AND month = 1", "number > 0", "account = 'Nosuch'", "payee = 'Buy' OR payee = 'Broker'"]
+FILTERS = [None, "account ~ 'Assets'", "currency = 'USD'", "account ~ 'Stock|Broker'", "year = 2021 AND month = 1", "number > 0", "account = 'Nosuch'", "payee = 'Buy' OR payee = 'Broker'",
+           # conditions that are NULL for some postings (no cost / no price): NULL excludes the posting, in aggregate queries as in plain ones
+           "cost_number > 50", "cost_currency = 'USD' AND number > 0", "NOT (cost_number > 50)"]
 
 
 def pred(f):
@@ -17,6 +19,9 @@ def pred(f):
         "currency = 'USD'": lambda e, p: p.units.currency == 'USD', "account ~ 'Stock|Broker'": lambda e, p: bool(re.search('Stock|Broker', p.account, re.I)),
         "year = 2021 AND month = 1": lambda e, p: e.date.year == 2021 and e.date.month == 1, "number > 0": lambda e, p: p.units.number > 0,
         "account = 'Nosuch'": lambda e, p: False, "payee = 'Buy' OR payee = 'Broker'": lambda e, p: e.payee in ('Buy', 'Broker'),
+        "cost_number > 50": lambda e, p: p.cost is not None and p.cost.number > 50,
+        "cost_currency = 'USD' AND number > 0": lambda e, p: p.cost is not None and p.cost.currency == 'USD' and p.units.number > 0,
+        "NOT (cost_number > 50)": lambda e, p: p.cost is None or not (p.cost.number > 50),      # NOT NULL is TRUE
     }[f]
 
 
@@ -71,6 +76,15 @@ def check_ledger(res, name, src):
                 comb.add_inventory(inv)
             if comb != total:
                 res.violation(f'h12:partition:{key}:{f}', 'sums over any partition of the selection add up to the sum of the whole', {'ledger': name, 'where': f, 'key': key}, comb, total)
+        # LIMIT cuts the list of groups, it never truncates the sums inside a group
+        for key in ('account', 'currency'):
+            full = conn.execute(f'SELECT {key}, sum(position), count(*) FROM #postings{where} GROUP BY {key}').fetchall()
+            for n in (1, 2):
+                res.case((name, 'group-limit', key, n, f))
+                cut = conn.execute(f'SELECT {key}, sum(position), count(*) FROM #postings{where} GROUP BY {key} LIMIT {n}').fetchall()
+                if [tuple(r) for r in cut] != [tuple(r) for r in full[:n]]:
+                    res.violation(f'h12:group-limit:{key}:{f}', 'GROUP BY ... LIMIT n returns the first n groups with their complete sums', {'ledger': name, 'where': f, 'key': key, 'limit': n},
+                                  [tuple(r) for r in cut][:2], [tuple(r) for r in full[:n]][:2])
         # running balance
         prefix, run = [], inventory.Inventory()
         for e, p in sel:
@@ -216,6 +230,30 @@ def check_synthetic(res):
                           {'ledger': 'A + a transaction repeated with shared postings', 'where': where}, (rows[-1][1] if rows else None), (tot[0][0] if tot else None))
 
 
+def check_zero_cost(res):
+    """lots held at zero cost (granted shares): cost() of the lot is 0 in the cost currency, and cost(sum(x)) == sum(cost(x))"""
+    import beanquery
+    from decimal import Decimal as _D
+    from beancount.core import amount as _amount
+    entries, errors, options = ledger.load(ledger.LEDGER_A)
+    zero = position.Cost(_D('0.00'), 'USD', datetime.date(2020, 3, 5), None)
+    legs = [data.Posting('Assets:Broker', _amount.Amount(_D('5'), 'HOOL'), zero, None, None, {'filename': 's', 'lineno': 1}),
+            data.Posting('Income:Salary', _amount.Amount(_D('0'), 'USD'), None, None, None, {'filename': 's', 'lineno': 2})]
+    txn = data.Transaction({'filename': 's', 'lineno': 1}, datetime.date(2020, 3, 5), '*', 'Employer', 'granted shares', frozenset(), frozenset(), legs)
+    conn = beanquery.connect('beancount:', entries=data.sorted(list(entries) + [txn]), errors=[], options=options)
+    res.case(('zero-cost', 'cost-of-lot'))
+    got = conn.execute("SELECT cost(position) FROM #postings WHERE narration = 'granted shares' AND currency = 'HOOL'").fetchall()
+    if [tuple(r) for r in got] != [(_amount.Amount(_D('0.00'), 'USD'),)]:
+        res.violation('h12:zero-cost:cost-of-lot', 'cost() of a lot held at zero cost is zero in the cost currency', {'lot': '5 HOOL {0.00 USD}'}, got, '0.00 USD')
+    for where in ("narration = 'granted shares'", "account ~ 'Broker'", None):
+        res.case(('zero-cost', 'hom', where))
+        w = f' WHERE {where}' if where else ''
+        a = conn.execute(f'SELECT cost(sum(position)) FROM #postings{w}').fetchall()
+        b = conn.execute(f'SELECT sum(cost(position)) FROM #postings{w}').fetchall()
+        if a != b:
+            res.violation(f'h12:zero-cost:hom:{where}', 'cost(sum(x)) equals sum(cost(x)) also for lots held at zero cost', {'where': where}, a, b)
+
+
 def check_inventory_columns(res, name, src):
     """sum() over an inventory-typed column (subquery output, user table): accumulators never alias row data"""
     conn = ledger.connect(src)
@@ -255,6 +293,7 @@ def run(tier, seed):
     check_dated_and_null(res, 'A', ledger.LEDGER_A)
     check_dated_and_null(res, 'B', ledger.LEDGER_B)
     check_synthetic(res)
+    check_zero_cost(res)
     check_balance_under_null_arguments(res, 'A', ledger.LEDGER_A)
     check_balance_under_null_arguments(res, 'B', ledger.LEDGER_B)
     check_target_currency_at_cost(res)
